@@ -8,8 +8,8 @@ from typing import Any, Dict, Iterator, List, Optional, Tuple
 
 MISSING = '__missing__'
 
-JSONRPC_ALPHA = [MISSING, '2.0', '1.0', 2.0, 2, None, True, [], {}, '2.00', ' 2.0']
-ID_ALPHA = [MISSING, None, 0, 1, -1, 2 ** 63, 10 ** 30, 1.0, 1.5, '', 'a', '1', True, False, [], {}, 'é\u0000\U0001F600']
+JSONRPC_ALPHA = [MISSING, '2.0', '1.0', 2.0, 2, None, True, [], {}, '2.00', ' 2.0', '2.0%', '%s', '%(x)d %', '2', '.0', '']
+ID_ALPHA = [MISSING, None, 0, 1, -1, 2 ** 63, 10 ** 30, 1.0, 1.5, '', 'a', '1', True, False, [], {}, 'é\u0000\U0001F600', '%s %d', '{0}']
 METHOD_ALPHA = [MISSING, 'js_checked', 'js_loose', 'slowfail', 'byid', 'wrapped', 'whoami', 'ctxp', 'fac1', 'fac2', 'ok', 'noargs', 'echo', 'kwonly', 'rpcerr', 'typed', 'boom', 'ctxm', 'view.vm',
                 'view._hidden', 'view', 'nope', '', 1, None, True, [], {}]
 PARAMS_ALPHA = [MISSING, [], {}, [1], [1, 2], {'a': 1}, {'a': 1, 'b': 2}, {'z': 0}, None, 1, 's', True,
@@ -88,7 +88,7 @@ EXC_KINDS = ['ValueError', 'KeyError', 'TypeError', 'AssertionError', 'RuntimeEr
              'IndexError', 'StopAsyncIteration', 'BufferError', 'PjBaseError', 'PjDeserializationError', 'PjIdentityError',
              'PjValidationError', 'JSONDecodeError', 'PjValidationErrorLive', 'ValueErrorLive',
              'ValueErrorEmpty', 'KeyErrorEmpty', 'AssertionErrorEmpty', 'ValueErrorBlank', 'Xq9EmptyStr', 'ValueErrorMultiline',
-             'Xq9BadRepr']
+             'Xq9BadRepr', 'GroupOfOneRpcError', 'NestedGroupOfOneRpcError', 'GroupOfTwo', 'KeyErrorSubclass']
 LIB_ERROR_NAMES = ['ParseError', 'InvalidRequestError', 'MethodNotFoundError', 'InvalidParamsError', 'InternalError', 'ServerError']
 
 
@@ -160,6 +160,17 @@ def typed_calls(rng: random.Random, full: bool) -> Iterator[Tuple[str, str, List
         yield 'view-constructor-fails', 'broken.vm', p
     yield 'unbound', 'ok', {'content-type': 1, 'a': 1}
     yield 'unbound', 'noargs', {'': 0}
+    for p in ([2], {'n': 4}):
+        yield 'custom-validator-code', 'pd_even', p
+    for p in ([3], {'n': 7}, ['x'], []):
+        yield 'unbound', 'pd_even', p
+    for p in ([['a', 'b']], {'items': []}, [[]]):
+        yield 'array-parameter', 'js_list', p
+    for p in (['abc'], {'items': ''}, [[1]], [None], [{'0': 'a'}]):
+        yield 'unbound', 'js_list', p
+    for p in ([], [5], {'a': 5}):
+        yield 'one-function-two-registrations', 'ctxm_plain', ([9] + p if isinstance(p, list) else dict(p, ctx=9))
+    yield 'unbound', 'ctxm_plain', []
     for p in ([1], {'a': 'x'}):
         yield 'non-json-defaults', 'odd_defaults', p
     for p in ([], {'zz': 1}, [1, 2, 3, 4, 5, 6], {'a': 1, 'nope': 2}):
@@ -323,7 +334,7 @@ def batches(rng: random.Random, max_exhaustive_len: int, sampled: int, max_len: 
     # duplicate ids at every pair of positions
     for n in (2, 3, 4):
         for a, b in itertools.combinations(range(n), 2):
-            for dup in (1, '1', 0, ''):
+            for dup in (1, '1', 0, '', '%s', '100%'):
                 els = [make_element('call_ok', p) for p in range(n)]
                 els[a]['id'] = dup
                 els[b]['id'] = dup
